@@ -96,3 +96,16 @@ def attack_positions(ctx0, start):
         for j in range(0, n + 2):
             out.append((t - start, j))
     return out
+
+
+def abort_all_attack(program, t_rel, j):
+    """the root's first scope is aborted by its own body raising at (t, j): every child still alive is closed
+    forcefully in one go (and the scope's remaining body is skipped)"""
+    p = copy.deepcopy(program)
+    script = p['roots'][0][1]
+    for i, op in enumerate(script):
+        if op[0] == 'SCOPE':
+            kids = [o for o in op[2] if o[0] == 'DO']
+            script[i] = ['TRY', [['SCOPE', op[1], kids + [['EQ', t_rel], ['SPIN', j], ['RAISE', 'KeyError', 'abort']]]]]
+            return p
+    raise ValueError('no scope in root')
